@@ -41,8 +41,12 @@ def write_tree(spec, sub=None) -> str:
     for rel, src in spec["files"].items():
         p = os.path.join(root, rel)
         os.makedirs(os.path.dirname(p), exist_ok=True)
-        with open(p, "w") as f:
-            f.write(src)
+        if isinstance(src, dict):  # {"hex": "..."}: literal file bytes (BOM, encoding declarations, line endings)
+            with open(p, "wb") as f:
+                f.write(bytes.fromhex(src["hex"]))
+        else:
+            with open(p, "w") as f:
+                f.write(src)
     for link_rel, target_rel in spec.get("symlinks", []):
         # a directory reachable under a second name (never a cycle: the caller picks a link location outside the target)
         os.symlink(os.path.join(root, target_rel), os.path.join(root, link_rel), target_is_directory=True)
